@@ -2,8 +2,10 @@
 // pool and every block builder, unmodified, under simthread.  DESIGN.md §4.1 C09.
 #include "common.h"
 #include "sim/gen.h"
+#include <fcntl.h>
 #include "StringDictionaryHASHRPDACBlocks.h"
 #include <sstream>
+#include <sys/wait.h>
 
 struct BlocksShape {
   bool cold = false;      // cold-start run: big input, no reference builds, first build of the process
@@ -81,22 +83,38 @@ static BuildOut build_once(const StringSet &ss, const BlocksShape &sh, int threa
     std::ostringstream out(std::ios::out | std::ios::binary);
     d->save(out);
     o.image = out.str();
-    uint64_t h = FNV_INIT;
-    size_t n = d->numElements();
-    h = fnv1a(h, &n, sizeof n);
-    for (size_t i = 1; i <= n; i++) {
-      uint l = 0; uchar *s = nullptr;
-      try { s = d->extract(i, &l); } catch (const char *e) { h = fnv1a(h, "THROW", 5); continue; }
-      h = fnv1a(h, &l, sizeof l);
-      if (s) {
-        h = fnv1a(h, s, l);
-        std::vector<uchar> pat(s, s + l); pat.push_back(0); pat.push_back(0);
-        unsigned long id = 0;
-        try { id = d->locate(pat.data(), l); } catch (const char *e) { id = (unsigned long)-7; }
-        h = fnv1a(h, &id, sizeof id);
-        delete[] s;
-      } else h = fnv1a(h, "NULL", 4);
+    // the answers are digested in a forked child: on some inputs the 1-thread build itself cannot answer
+    // (pure-input defects of the query path); a child that dies yields the same digest in reference and varied
+    // build, so only a schedule-dependent difference shows
+    int qp[2]; if (pipe(qp)) { perror("pipe"); _exit(97); }
+    fflush(stdout);
+    pid_t qpid = fork();
+    if (qpid == 0) {
+      sim_set_death_info(nullptr, 0, 1);
+      close(qp[0]); int nul = open("/dev/null", O_WRONLY); dup2(nul, 2);
+      uint64_t h = FNV_INIT;
+      size_t n = d->numElements();
+      h = fnv1a(h, &n, sizeof n);
+      for (size_t i = 1; i <= n; i++) {
+        uint l = 0; uchar *s = nullptr;
+        try { s = d->extract(i, &l); } catch (const char *e) { h = fnv1a(h, "THROW", 5); continue; }
+        h = fnv1a(h, &l, sizeof l);
+        if (s) {
+          h = fnv1a(h, s, l);
+          std::vector<uchar> pat(s, s + l); pat.push_back(0); pat.push_back(0);
+          unsigned long id = 0;
+          try { id = d->locate(pat.data(), l); } catch (const char *e) { id = (unsigned long)-7; }
+          h = fnv1a(h, &id, sizeof id);
+          delete[] s;
+        } else h = fnv1a(h, "NULL", 4);
+      }
+      ssize_t w = write(qp[1], &h, sizeof h); (void)w;
+      _exit(0);
     }
+    close(qp[1]);
+    uint64_t h = FNV_INIT; ssize_t got = read(qp[0], &h, sizeof h); close(qp[0]);
+    int qst = 0; waitpid(qpid, &qst, 0);
+    if (got != (ssize_t)sizeof h || !WIFEXITED(qst) || WEXITSTATUS(qst) != 0) h = fnv1a(FNV_INIT, "QUERY-PASS-DIED", 15);
     o.qdigest = h;
     delete d;
   }
